@@ -116,3 +116,38 @@ Lemma ignore_nothing_is_all fl :
   let n := normalise fl in
   no_vcs n = true /\ no_project n = true /\ no_global n = true /\ no_default n = true /\ no_discover n = true.
 Proof. intro H. unfold normalise. rewrite H. cbn. rewrite !orb_true_r. repeat split; reflexivity. Qed.
+
+(* Without any assumption on what from_origin returned (in particular when the project's .git/config names its own excludes file, which
+   from_origin lists at global scope): a global ignore file that belongs to no VCS is selected exactly unless --no-global-ignore or
+   --no-discover-ignore (or --ignore-nothing) is in effect. *)
+Theorem global_nonvcs_kept fixed fl vcs proj glob expl f :
+  In f glob -> s_in f = AGlobal -> s_to f = None ->
+  no_global (normalise fl) = false -> no_discover (normalise fl) = false ->
+  In f (selected fixed fl vcs proj glob expl).
+Proof.
+  intros Hf Hin Hto NG ND. unfold selected. rewrite ND. unfold dirs_ignores. rewrite NG.
+  assert (keepvcs vcs f = true) as KV by (unfold keepvcs; rewrite Hto; reflexivity).
+  assert (is_git_global f = false) as GG by (unfold is_git_global; rewrite Hto; reflexivity).
+  assert (is_origin f = false) as IO by (unfold is_origin; rewrite Hin; reflexivity).
+  set (pp := if no_project (normalise fl) then [] else _).
+  set (sg := _ && _ && _).
+  assert (In f (filter (keepvcs vcs) (if sg then filter (fun f => negb (is_git_global f)) glob else glob))) as G1.
+  { apply filter_In. split; [|exact KV]. destruct sg; [apply filter_In; split; [exact Hf|rewrite GG; reflexivity]|exact Hf]. }
+  apply in_or_app. left.
+  assert (In f (pp ++ filter (keepvcs vcs) (if sg then filter (fun f => negb (is_git_global f)) glob else glob) ++ (if fixed then [] else expl_g expl))) as G2
+    by (apply in_or_app; right; apply in_or_app; left; exact G1).
+  revert G2. generalize (pp ++ filter (keepvcs vcs) (if sg then filter (fun f => negb (is_git_global f)) glob else glob) ++ (if fixed then [] else expl_g expl)).
+  intros l G2.
+  assert (In f (if no_project (normalise fl) then filter (fun f => negb (is_origin f)) l else l)) as G3
+    by (destruct (no_project (normalise fl)); [apply filter_In; split; [exact G2|rewrite IO; reflexivity]|exact G2]).
+  destruct (no_vcs (normalise fl)); [apply filter_In; split; [exact G3|rewrite Hto; reflexivity]|exact G3].
+Qed.
+
+(* The user-level git ignore is left out exactly when the project itself lists a global-scope git file (core.excludesFile) that survives the
+   VCS selection, project discovery is on and a VCS was detected. *)
+Example project_excludes_replaces_user_git :
+  let proj := [mkSrc 8 AGlobal (Some PT_Git); mkSrc 1 AOrigin (Some PT_Git)] in
+  let glob := [mkSrc 6 AGlobal (Some PT_Git); mkSrc 7 AGlobal None] in
+  map s_id (selected true flags0 [PT_Git] proj glob []) = [8; 1; 7]%N /\
+  map s_id (selected true (mkFlags false true false false false false) [PT_Git] proj glob []) = [6; 7]%N.
+Proof. vm_compute. split; reflexivity. Qed.
